@@ -638,6 +638,13 @@ def run(ctx):
     from . import shared as _sh
 
     _sh.deletion_confined_to_gc_commands(ctx, 'C02.R12')
+    # the loader sees every snapshot only if every adapter's listing is complete (pagination ends on the service's own
+    # end marker), and a retried upload never publishes a short object over a good one
+    from .c12 import r2_rewind as _rw
+    from .c13 import r2_pagination as _pg
+
+    _pg(Relabel(ctx, 'C02.R3'))
+    _rw(Relabel(ctx, 'C02.R11'), rule='C02.R11')
     # ... and those bytes are the ones whose digest names the object: the record handed to the upload workers is built in
     # the iteration that produced the chunk, from values computed for that chunk (a stale payload under a fresh name
     # would replace / pre-empt the right object for every snapshot that references the digest)
